@@ -25,6 +25,10 @@ func main() {
 		err = cmdEngine(*in, *out)
 	case "resolve":
 		err = cmdResolve(*in, *out)
+	case "app":
+		err = cmdApp(*in, *out)
+	case "sort":
+		err = cmdSort(*in, *out)
 	case "cache":
 		err = cmdCache(*in, *out, *names)
 	default:
